@@ -261,6 +261,34 @@ theorem finding_in_literal_list_ignores_collation :
     ∃ (w : Nat → Int) (a b : List Nat), InLiteralRegion w a b ∧ sqlRowImpl w a b ≠ sqlRowSpec w a b :=
   ⟨fun r => if 97 ≤ r ∧ r ≤ 122 then (r : Int) - 32 else r, [97, 98, 99], [65, 66, 67], by decide⟩
 
+/-- The same for the hash-based operators over stored rows: when no row is in the literal-IN
+region with the probe, `WHERE a IN ('<y>', …)` counts the rows that compare equal to `y` under the
+column collation (GROUP BY always yields the classes of the column collation). -/
+theorem sqlHash_partial (w : Nat → Int) (rows : List (List Nat)) (y : List Nat)
+    (h : ∀ r ∈ rows, ¬ InLiteralRegion w r y) : sqlHashImpl w rows y = sqlHashSpec w rows y := by
+  unfold sqlHashImpl sqlHashSpec
+  congr 3
+  apply List.filter_congr
+  intro r hr
+  rw [compare_refines]
+  by_cases h0 : compareSpec w false r y = 0
+  · have h1 : compareSpec wDefault false r y = 0 := by
+      by_cases h1 : compareSpec wDefault false r y = 0
+      · exact h1
+      · exact absurd ⟨h0, h1⟩ (h r hr)
+    simp [h0, h1]
+  · have h1 : compareSpec wDefault false r y ≠ 0 := fun h1 => h0 (default_zero_imp_zero w r y h1)
+    have e1 : (compareSpec w false r y == 0) = false := beq_eq_false_iff_ne.2 h0
+    have e2 : (compareSpec wDefault false r y == 0) = false := beq_eq_false_iff_ne.2 h1
+    simp [e1, e2]
+
+/-- Non-vacuity / what the `long` stream expects of three rows that differ only in a two-byte
+character behind 63 ASCII bytes (`é`, `ñ`, `É` under a collation that folds `é`/`É`): one row
+matches the probe, two groups. -/
+example : sqlHashSpec (fun r => if r = 0xC9 then 0xE9 else r)
+    [List.replicate 63 120 ++ [0xC3, 0xA9], List.replicate 63 120 ++ [0xC3, 0xB1], List.replicate 63 120 ++ [0xC3, 0x89]]
+    (List.replicate 63 120 ++ [0xC3, 0xB1]) = ["1", "2"] := by decide
+
 /-! ### Regenerated facts (Gms/Generated/C29.lean, rewritten on every run)
 
 `facts_match` pins the shape of the Go code the model transliterates (the tests that guard the
@@ -279,6 +307,12 @@ theorem facts_match :
     weightByteWrites = ["i * 4 <- byte(runeWeight)", "i*4 + 1 <- byte(runeWeight >> 8)",
       "i*4 + 2 <- byte(runeWeight >> 16)", "i*4 + 3 <- byte(runeWeight >> 24)"] ∧
     weightBinaryCase = "c == Collation_binary" ∧
+    -- one loop over the whole remaining string, one decoder call on it, advance by the decoded size: no chunk /
+    -- window of the input (the only bounded slice is the 4-byte window of the output buffer)
+    weightDecodeSteps = ["for len(str) > 0", "decode utf8.DecodeRuneInString(str)", "window buf[i*4 : i*4+4]",
+      "slice str = str[strRead:]"] ∧
+    compareDecodeSteps = ["for len(as) > 0 && len(bs) > 0", "decode encoder.NextRune(as)", "decode encoder.NextRune(bs)",
+      "slice as = as[aRead:]", "slice bs = bs[bRead:]"] ∧
     likeMalformedTests_ConstructLikeMatcher = ["nextRune == utf8.RuneError && advance <= 1", "nextRune == utf8.RuneError && advance <= 1"] ∧
     likeMalformedTests_Match = ["nextRune == utf8.RuneError && advance <= 1"] ∧
     likeMalformedTests_backtrack = ["nextRune == utf8.RuneError && advance <= 1"] ∧
@@ -443,6 +477,117 @@ theorem runes_ascii : ∀ (s : List Nat), (∀ c ∈ s, c < 128) → runes false
       simp [hn, hb]
     rw [hd]
     simp [ih (fun c hc => h c (by simp [hc]))]
+
+/-! ### Long strings: the position of a character does not matter
+
+`WriteWeightString` / `Compare` decode the whole remaining string at every step (pinned by
+`weightDecodeSteps` / `compareDecodeSteps` in `facts_match`); nothing depends on how many bytes
+precede a character. A prefix is *aligned* when decoding does not look across its end; for every
+aligned prefix of any length the weight string of `p ++ s` is the weight string of `p` followed
+by that of `s`, and whether two strings with a common aligned prefix compare equal / have equal
+weight strings is decided by the tails alone (so a multi-byte character at byte 63, 127, 4095, …
+is told apart from another one exactly as at byte 0). -/
+
+/-- decoding `p ++ s` yields the runes of `p`, then the runes of `s`, whatever follows -/
+def Aligned (p : List Nat) : Prop := ∀ s, runes false (p ++ s) = runes false p ++ runes false s
+
+theorem aligned_nil : Aligned [] := by intro s; simp [runes_nil]
+
+theorem aligned_append (p q : List Nat) (hp : Aligned p) (hq : Aligned q) : Aligned (p ++ q) := by
+  intro s
+  rw [List.append_assoc, hp (q ++ s), hq s, hp q, List.append_assoc]
+
+theorem nextRune_ascii (b : Nat) (t : List Nat) (hb : b < 128) : nextRune false (b :: t) = (b, 1) := by
+  simp only [nextRune, Bool.false_eq_true, if_false, decodeUtf8]
+  have hn : Gms.RangeMap.utf8Len (b :: t) = 1 := by
+    have : b < 0xC2 := by omega
+    simp [Gms.RangeMap.utf8Len, this]
+  simp [hn, hb]
+
+/-- an ASCII byte is aligned -/
+theorem aligned_ascii_byte (b : Nat) (hb : b < 128) : Aligned [b] := by
+  intro s
+  rw [runes_cons false ([b] ++ s) (by simp), runes_cons false [b] (by simp)]
+  have h1 : nextRune false ([b] ++ s) = (b, 1) := nextRune_ascii b s hb
+  have h2 : nextRune false [b] = (b, 1) := nextRune_ascii b [] hb
+  rw [h1, h2]
+  simp [runes_nil]
+
+/-- a well-formed two-byte character (lead `C2..DF`, continuation `80..BF`) is aligned -/
+theorem aligned_two_byte (b0 b1 : Nat) (h0 : 0xC2 ≤ b0 ∧ b0 < 0xE0) (h1 : 0x80 ≤ b1 ∧ b1 ≤ 0xBF) :
+    Aligned [b0, b1] := by
+  intro s
+  have hn : ∀ t, Gms.RangeMap.utf8Len (b0 :: b1 :: t) = 2 := by
+    intro t
+    have a : ¬ b0 < 0xC2 := by omega
+    simp [Gms.RangeMap.utf8Len, a, h0.2, h1.1, h1.2]
+  have hd : ∀ t, nextRune false (b0 :: b1 :: t) = ((b0 % 32) * 64 + b1 % 64, 2) := by
+    intro t
+    simp [nextRune, decodeUtf8, hn t]
+  rw [runes_cons false ([b0, b1] ++ s) (by simp), runes_cons false [b0, b1] (by simp)]
+  have e1 : [b0, b1] ++ s = b0 :: b1 :: s := rfl
+  rw [e1, hd s, hd []]
+  simp [runes_nil]
+
+/-- every ASCII string is aligned -/
+theorem aligned_ascii : ∀ (p : List Nat), (∀ c ∈ p, c < 128) → Aligned p := by
+  intro p
+  induction p with
+  | nil => intro _; exact aligned_nil
+  | cons b t ih =>
+    intro h
+    have : b :: t = [b] ++ t := rfl
+    rw [this]
+    exact aligned_append _ _ (aligned_ascii_byte b (h b (by simp))) (ih (fun c hc => h c (by simp [hc])))
+
+/-- **Weight strings are position independent**: behind an aligned prefix of any length the
+weight string continues exactly as for the tail alone. -/
+theorem writeWeights_append (w : Nat → Int) (p s : List Nat) (hp : Aligned p) :
+    writeWeights w false (p ++ s) = some (weightsSpec w p ++ weightsSpec w s) := by
+  rw [writeWeights_eq]
+  simp [weightsSpec, hp s, List.map_append, List.flatMap_append]
+
+/-- **A common aligned prefix cancels**, whatever its length: comparison and weight-string
+equality of `p ++ x` and `p ++ y` are those of `x` and `y`. -/
+theorem common_prefix_cancels (w : Nat → Int) (hw : ∀ r, -2147483648 ≤ w r ∧ w r < 2147483648)
+    (p x y : List Nat) (hp : Aligned p) :
+    (compare w false (p ++ x) (p ++ y) = some 0 ↔ compare w false x y = some 0) ∧
+    (writeWeights w false (p ++ x) = writeWeights w false (p ++ y) ↔ compare w false x y = some 0) := by
+  have h1 : compare w false (p ++ x) (p ++ y) = some 0 ↔ compare w false x y = some 0 := by
+    rw [compare_zero_iff_weights, compare_zero_iff_weights, hp x, hp y]
+    simp [List.map_append]
+  exact ⟨h1, by rw [← compare_zero_iff_weightString w hw]; exact h1⟩
+
+/-- The input class of the `long` stream: `n` ASCII bytes (any `n`: 63, 127, 4095, …), then two
+different two-byte characters `é` / `ñ`, then `z` — never equal, never the same weight string,
+under any weight function that separates the two characters. -/
+theorem straddling_char_distinguishes (w : Nat → Int) (hw : ∀ r, -2147483648 ≤ w r ∧ w r < 2147483648)
+    (hne : w 0xE9 ≠ w 0xF1) (n : Nat) :
+    compare w false (List.replicate n 120 ++ [0xC3, 0xA9, 122]) (List.replicate n 120 ++ [0xC3, 0xB1, 122]) ≠ some 0 ∧
+    writeWeights w false (List.replicate n 120 ++ [0xC3, 0xA9, 122]) ≠
+      writeWeights w false (List.replicate n 120 ++ [0xC3, 0xB1, 122]) := by
+  have hp : Aligned (List.replicate n 120) := aligned_ascii _ (by
+    intro c hc; rw [List.mem_replicate] at hc; omega)
+  have hc := common_prefix_cancels w hw (List.replicate n 120) [0xC3, 0xA9, 122] [0xC3, 0xB1, 122] hp
+  have hx : ¬ compare w false [0xC3, 0xA9, 122] [0xC3, 0xB1, 122] = some 0 := by
+    rw [compare_zero_iff_weights]
+    have a1 := aligned_two_byte 0xC3 0xA9 (by omega) (by omega) [122]
+    have a2 := aligned_two_byte 0xC3 0xB1 (by omega) (by omega) [122]
+    have e1 : ([0xC3, 0xA9, 122] : List Nat) = [0xC3, 0xA9] ++ [122] := rfl
+    have e2 : ([0xC3, 0xB1, 122] : List Nat) = [0xC3, 0xB1] ++ [122] := rfl
+    have r1 : runes false [0xC3, 0xA9] = [0xE9] := by decide
+    have r2 : runes false [0xC3, 0xB1] = [0xF1] := by decide
+    rw [e1, e2, a1, a2, r1, r2]
+    intro h
+    simp only [List.map_cons, List.cons_append, List.nil_append, List.cons.injEq] at h
+    exact hne h.1
+  exact ⟨fun h => hx (hc.1.1 h), fun h => hx (hc.2.1 h)⟩
+
+/-- Non-vacuity: the code-point weight function at prefix lengths 63 and 127. -/
+example : compare (fun r => (r : Int)) false (List.replicate 63 120 ++ [0xC3, 0xA9, 122]) (List.replicate 63 120 ++ [0xC3, 0xB1, 122]) = some (-1) ∧
+    Aligned (List.replicate 127 120 ++ [0xC3, 0xA9]) :=
+  ⟨by decide, aligned_append _ _ (aligned_ascii _ (by intro c hc; rw [List.mem_replicate] at hc; omega))
+    (aligned_two_byte _ _ (by omega) (by omega))⟩
 
 /-- The Go-level corollary: `StringType.Compare` of an ASCII string and its lower-cased form is 0
 under every `_ci` collation of the compiled code (outside the exception pairs). -/
